@@ -18,6 +18,8 @@ def run(repo: Repo, tier, rep: Report):
         rep.sample(dict(engine="O", **s))
     n = check_kinds(repo, rep, functions={"node_link_data", "node_link_graph"})
     rep.floor("typed sinks (node_link)", n, 0)
+    from sa.make_str_check import check_make_str
+    check_make_str(repo, rep)
     from sa.jsonreader import check_node_link_graph
     check_node_link_graph(repo, rep)
     from sa.query_check import check_enumeration_dependency
